@@ -12,6 +12,8 @@ import SctpVerif.Proofs.Sender.Core
 import SctpVerif.Proofs.Sender.Callback
 import SctpVerif.Proofs.Sender.Seq
 import SctpVerif.Proofs.Sender.Rtx
+import SctpVerif.Proofs.Sender.Wire
+import SctpVerif.Proofs.Sender.MsgId
 /-! Helper lemmas about the L0 sender model `Model/Sender.lean` (used by `Props/C10.lean`, `Props/C15.lean`):
 `Arith` packet/chunk sizes · `Gather` the scan loops · `Window`/`Admit` admission of new DATA · `Frames` what the
 flag-only transitions leave alone · `WinRun` window invariants over runs · `Loss` loss response · `Books`/`Acct`/`Core`
